@@ -763,6 +763,29 @@ theorem mpi_default_correct_real {P : Prob ℝ} (hP : WF P) {β ε : ℝ} (hβ0 
   have h := mpi_stop hP hβ0 hβ1 hε (by simp) maxIter k hS hstop
   exact ⟨hstop, h.1, h.2.1, h.2.2⟩
 
+/-! ## why policy iteration must stop on "greedy policy unchanged", not on `T v_σ ≈ v_σ` -/
+
+/-- slow-gain example, β = 0.999: state 0 can stay (reward 1) or take reward 0.998 and move with
+    probability 0.001 to the absorbing state 1 (reward 1.01) -/
+def exSlow : Prob ℚ :=
+  [[⟨0, 1, [1, 0]⟩, ⟨1, 998/1000, [999/1000, 1/1000]⟩], [⟨0, 101/100, [0, 1]⟩]]
+
+/-- **a relative-tolerance stopping rule is unsound.**  On `exSlow` the all-stay policy `σ = (0,0)`
+    has value `v_σ = (1000, 1010)` and `T v_σ` differs from it by less than `10⁻⁵·|v_σ|` in every entry
+    (what `np.allclose(T v_σ, v_σ)` accepts) — yet `T v_σ ≠ v_σ`, the greedy policy at `v_σ` is
+    `(1,0) ≠ σ`, and the optimal value, returned by the model's policy iteration (which stops only
+    when the greedy policy repeats, `pi_exit_optimal`), is more than 3.99 higher in state 0. -/
+theorem pi_rtol_stop_unsound :
+    evalPolicy solveRat exSlow (999/1000) [0, 0] = [1000, 1010] ∧
+    supDist (bellman exSlow (999/1000) [1000, 1010]) [1000, 1010] ≤ (1/100000) * 1000 ∧
+    bellman exSlow (999/1000) [1000, 1010] ≠ [1000, 1010] ∧
+    greedy exSlow (999/1000) [1000, 1010] = [1, 0] ∧
+    (policyIteration solveRat exSlow (999/1000) [1, 101/100] 250).stopped = true ∧
+    (policyIteration solveRat exSlow (999/1000) [1, 101/100] 250).sigma = [1, 0] ∧
+    1000 + 399/100 < ((policyIteration solveRat exSlow (999/1000) [1, 101/100] 250).v).getD 0 0 := by
+  refine ⟨by decide +kernel, by decide +kernel, by decide +kernel, by decide +kernel,
+    by decide +kernel, by decide +kernel, by decide +kernel⟩
+
 /-! ## non-vacuity: Puterman's two-state example (ddp.py docstring), β = 1/2 -/
 
 /-- state 0: action 0 (r = 5, q = (½,½)), action 1 (r = 10, q = (0,1)); state 1: action 0
